@@ -40,6 +40,7 @@ var genericVariants = []variant{
 	{MGarbage, 7, 0}, {MGarbage, 8, 0}, {MGarbage, 9, 0}, {MGarbage, 10, 0},
 	{MInject, 0, 0}, {MInject, 0, 1}, {MInject, 0, 2}, {MInject, 0, 9}, {MInject, 1, 0}, {MInject, 2, 0}, {MInject, 3, 0}, {MInject, 4, 0},
 	{MSession, 0, 0}, {MSession, 1, 0}, {MSession, 2, 0}, {MSession, 3, 0}, {MSession, 4, 0},
+	{MChatter, 0, 0}, {MChatter, 1, 0}, {MChatter, 2, 0},
 }
 
 var describeVariants = []variant{
@@ -288,6 +289,27 @@ func (g *gen) sweep() {
 			cfg := Cfg{Proto: proto, NMedia: 2, Creds: i % 2, Back: (i / 2) % 2}
 			cs := &Case{Cfg: cfg, Steps: flowSteps(flowPlay, 2, false, false), CloseDuring: -1, Tag: "sweep-describe"}
 			setAct(cs, 1, v)
+			g.add(cs)
+		}
+	}
+	// a server that never answers request k but keeps talking (stale responses, OPTIONS requests, frames) at
+	// every request position of the play conversation: the call must time out ReadTimeout after the request
+	for proto := 0; proto < 3; proto++ {
+		for pos := 0; pos < 5; pos++ { // OPTIONS DESCRIBE SETUP PLAY PAUSE
+			for kind := 0; kind < 3; kind++ {
+				if kind == 2 && (proto != 2 || pos < 3) {
+					continue // frames are only tolerated once a TCP session plays; elsewhere they are an error at once
+				}
+				cs := &Case{Cfg: Cfg{Proto: proto, NMedia: 1, Creds: pos % 2}, Steps: flowSteps(flowPlay, 1, false, false), CloseDuring: -1, Tag: "chatter"}
+				setAct(cs, pos, variant{MChatter, kind, 0})
+				g.add(cs)
+			}
+		}
+	}
+	for kind := 0; kind < 2; kind++ { // record side
+		for pos := 1; pos < 5; pos++ { // ANNOUNCE SETUP RECORD PAUSE
+			cs := &Case{Cfg: Cfg{Proto: 1 + kind, NMedia: 1}, Steps: flowSteps(flowRecord, 1, false, false), CloseDuring: -1, Tag: "chatter"}
+			setAct(cs, pos, variant{MChatter, kind, 0})
 			g.add(cs)
 		}
 	}
@@ -912,6 +934,10 @@ func main() {
 	ctx.Extra("cases_oracle_only", uncovered)
 }
 
+// a chattering server talks for 6 x ReadTimeout = 3000 ms; a call that is still waiting 1500 ms after its
+// deadline has had it moved
+const chatterSlackMs = 1500
+
 type fail struct{ class, detail string }
 
 type evalRes struct {
@@ -1044,9 +1070,22 @@ func evaluate(o *outcomeRec) (e evalRes) {
 		e.failf(stormClass(r.Records), "one API call made the client send more than %d requests (%d in total); the server had to stop misbehaving to end it", stormLimit, r.NReq)
 	}
 	sawTimeout := r.WaitClass == cTimeout
+	recPos := 0
 	for i, c := range r.Calls {
 		if c.Class == cSkipped {
 			continue
+		}
+		// a request of this call was never answered while the server kept talking for 6 x ReadTimeout: the
+		// deadline is relative to the moment the request was written, chatter must not move it
+		chat := false
+		for k := recPos; k < recPos+c.NReq && k < len(r.Records); k++ {
+			chat = chat || r.Records[k].Chatter
+		}
+		recPos += c.NReq
+		if chat && c.Op != opIdle && cs.CloseDuring < 0 && !c.Hang && c.Ms > readTimeoutMs+chatterSlackMs+150*c.NReq {
+			e.failf("call-exceeds-read-timeout", "%s (step %d) returned after %d ms although the request was never answered: ReadTimeout is %d ms and must run from the moment the request is written, whatever else the server sends meanwhile (it sent a message every %d ms)", opName(c.Op), i, c.Ms, readTimeoutMs, readTimeoutMs/4)
+			// a call that waited (nearly) until the chatter ended is not scheduling noise: no re-run
+			e.timing = e.timing || c.Ms < chatterRounds*readTimeoutMs/4-300
 		}
 		if c.Class == cTimeout {
 			sawTimeout = true
